@@ -1,4 +1,6 @@
 CONSTANTS
+  DomSize = 0
+  Blocks = 1
   MaxL = 4
   MaxStmts = 3
   MaxCmts = 4
